@@ -265,6 +265,17 @@ type pathCtx struct {
 	// inline goroutine schedule: nesting depth of `go` bodies being run, and the channels made on this path
 	goDepth int
 	chans   []*chanObj
+	// lockset race check under the inline schedule (see raceWrite)
+	gidStack []int
+	nextGid  int
+	held     map[*value]int
+	wrote    map[interface{}]raceRec
+}
+
+type raceRec struct {
+	gid   int
+	locks []*value
+	site  string
 }
 
 func (c *pathCtx) solver() *Solver { return c.w.solver }
